@@ -301,14 +301,7 @@ func GenBatch(t Target, prop string, seed uint64, n int, outdir string, nenum in
 		}
 		cfg.Meta.Pkg = &name
 		danglingFlag := false
-		if prop == "C20" && i >= n {
-			// only members that can be instantiated are of use here
-			for k := range cfg.Services {
-				if cfg.Services[k].Todo {
-					cfg.Services[k] = gen.Svc{Name: cfg.Services[k].Name, Value: `&"` + gen.FxPath + `".Node{}`, Scope: cfg.Services[k].Scope}
-				}
-			}
-		}
+		// (family members that end in a todo placeholder run as well: the probe overrides the placeholder first)
 		if prop == "C05" && i >= n && (i-n)%3 == 1 && cfg.Services[0].Ctor != "" {
 			// every third member of the family also refers to an undefined service (sorting before
 			// all others) and is built with --ignore-missing-services: the scope verdict must not change
@@ -351,13 +344,8 @@ func GenBatch(t Target, prop string, seed uint64, n int, outdir string, nenum in
 		}
 		it := GenItem{Name: name, Cfg: cfg, Exit: r.Exit, Files: len(w.Files), Illegal: len(gen.ScopeViolations(cfg)) > 0,
 			CType: deref(cfg.Meta.CType, "Gontainer"), CCtor: deref(cfg.Meta.CCtor, "NewGontainer")}
-		if prop != "C15" {
-			for _, sv := range cfg.Services {
-				if sv.Todo {
-					it.NoRun = true
-				}
-			}
-		}
+		// (configurations with todo placeholders run as well: the probe overrides every placeholder before it
+		// uses the container - the documented build -> override -> use workflow)
 		if danglingFlag || stubFlag {
 			it.NoRun = true
 		}
@@ -419,6 +407,9 @@ func enumOrder(prop string) []int {
 		pick := sh && cx
 		if prop == "C20" {
 			pick = cx // also the illegal ones: a tool that wrongly accepts them hands out shared instances holding contextual ones
+			if j%NShapes == 6 && (as>>4)&3 == 0 {
+				pick = true // a placeholder without a declared scope: what overrides it at run time may be contextual
+			}
 		}
 		if pick {
 			first = append(first, j)
